@@ -192,6 +192,10 @@ func (b *Builder) addLengthPrefixed(lenLen int, isASN1 bool, f BuilderContinuati
 
 	offset := len(b.result)
 	b.add(make([]byte, lenLen)...)
+	if b.err != nil {
+		// The length prefix did not fit into a fixed-size buffer.
+		return
+	}
 
 	if b.inContinuation == nil {
 		b.inContinuation = new(bool)
@@ -267,6 +271,11 @@ func (b *Builder) flushChild() {
 		extraBytes := int(lenLen - 1)
 		if extraBytes != 0 {
 			child.add(make([]byte, extraBytes)...)
+			if child.err != nil {
+				// The long-form length did not fit into a fixed-size buffer.
+				b.err = child.err
+				return
+			}
 			childStart := child.offset + child.pendingLenLen
 			copy(child.result[childStart+extraBytes:], child.result[childStart:])
 		}
